@@ -2,6 +2,7 @@
 The substitution loop `Mach.rounds` taken apart: one iteration (`roundStep`), a ghost log of the
 iterations (`roundsLog`), and what one iteration does to the world and to the tree.
 -/
+import Hfsm.Proofs.ApplyStep
 import Hfsm.Proofs.Payload
 import Hfsm.Proofs.GuardCancel
 import Hfsm.Proofs.TreeFrame
@@ -153,6 +154,143 @@ theorem applyAll_rel : (ts : List Transition) → (m : Mach U) → (i : Nat) →
     rw [this]
     exact h1.trans h2 (Nat.le_succ _) (Nat.le_add_right _ _)
 
+end Mach
+
+/-! ### the apply phase of a replay: entries beyond the capacity of `previousTransitions` pin nothing -/
+
+theorem ApplyRel.weaken {lo hi hi' : Nat} {w w' : World U} (h : ApplyRel lo hi w w') (hlh : lo ≤ hi) (hh : hi ≤ hi') :
+    ApplyRel lo hi' w w' :=
+  h.trans (ApplyRel.rfl' hi hi' w') hlh hh
+
+/-- a forward pass with `index = INVALID_SHORT` pins nothing at all -/
+theorem Frame.applyRelNone {w w' : World U} (f : Frame (allowFwd none) w w')
+    (hr : w'.requests = w.requests) (lo : Nat) : ApplyRel lo lo w w' := by
+  refine ⟨f.cfg, hr, f.previous, f.pending, f.current, f.cancelled, ?_, f.targetsLen, ?_, f.err⟩
+  · obtain ⟨evs, e, p⟩ := f.trace
+    exact ⟨evs, e, fun ev hev => (p ev hev).fwd⟩
+  · intro s
+    rcases f.targets s with h | ⟨j, hj, _⟩
+    · exact .inl h
+    · have hj' : some j = none := hj
+      cases hj'
+
+namespace Mach
+
+theorem applyRequestNoPin_rel (m : Mach U) (t : Transition) (lo : Nat) :
+    ApplyRel lo lo m.w (m.applyRequestNoPin t).w := by
+  have snap : ApplyRel lo lo m.w (m.w.snapshot m.root true false) :=
+    ⟨rfl, rfl, rfl, rfl, rfl, id, ⟨[], rfl, fun _ h => nomatch h⟩, rfl, fun _ => .inl rfl, fun _ => rfl⟩
+  have key : ∀ w', Steps (allowFwd none) (m.w.snapshot m.root true false) w' → ApplyRel lo lo m.w w' := by
+    intro w' h
+    exact snap.trans (h.frame.applyRelNone (fwd_requests h) lo) (Nat.le_refl _) (Nat.le_refl _)
+  unfold applyRequestNoPin
+  dsimp only
+  split
+  · split
+    · exact key _ (Steps.refl _)
+    · exact key _ ((Steps.refl _).fail' _)
+  · split
+    · exact key _ (Node.request_steps m.root ⟨_, none⟩ _ _ (Steps.refl _))
+    · split
+      · exact key _ ((Steps.refl _).fail' _)
+      · exact key _ (Node.fwdActive_steps _ ⟨_, none⟩ _ _ (Steps.refl _))
+
+/-- nothing is pinned: `transitionTargets` is as it was -/
+theorem applyRequestNoPin_targets (m : Mach U) (t : Transition) : (m.applyRequestNoPin t).w.targets = m.w.targets := by
+  have h := applyRequestNoPin_rel m t 0
+  apply List.ext_getElem?
+  intro s
+  have hl := h.targetsLen
+  rcases h.targets s with h1 | ⟨i, hi1, hi2, _⟩
+  · by_cases hs : s < m.w.targets.length
+    · have hs' : s < (m.applyRequestNoPin t).w.targets.length := by rw [hl]; exact hs
+      rw [List.getD_eq_getElem?_getD, List.getD_eq_getElem?_getD, List.getElem?_eq_getElem hs,
+        List.getElem?_eq_getElem hs'] at h1
+      rw [List.getElem?_eq_getElem hs, List.getElem?_eq_getElem hs']
+      exact congrArg some h1
+    · rw [List.getElem?_eq_none (by omega), List.getElem?_eq_none (by omega)]
+  · omega
+
+theorem applyStep_rel (m : Mach U) (x : Transition × Nat) : ApplyRel x.2 (x.2 + 1) m.w (applyStep m x).w := by
+  unfold applyStep
+  split
+  · exact applyRequest_rel m x.1 x.2
+  · exact (applyRequestNoPin_rel m x.1 x.2).weaken (Nat.le_refl _) (Nat.le_succ _)
+
+theorem foldl_applyStep_cfg (l : List (Transition × Nat)) (m : Mach U) : (l.foldl applyStep m).w.cfg = m.w.cfg :=
+  foldl_applyStep_inv (P := fun m' => m'.w.cfg = m.w.cfg)
+    (fun m' t i h => (applyRequest_rel m' t i).cfg.trans h)
+    (fun m' t h => (applyRequestNoPin_rel m' t 0).cfg.trans h) l m rfl
+
+/-- The apply phase of a replay pins queue indices below `historyCap` (and below the length of the list) only:
+every pin addresses a slot of `previousTransitions` that the replay fills. -/
+theorem foldl_applyStep_rel : (ts : List Transition) → (m : Mach U) → (i : Nat) →
+    ApplyRel i (max i (min (i + ts.length) m.w.cfg.historyCap)) m.w ((ts.zipIdx i).foldl applyStep m).w
+  | [], m, i => by
+    simp only [List.zipIdx_nil, List.foldl_nil]
+    exact ApplyRel.rfl' _ _ _
+  | t :: rest, m, i => by
+    simp only [List.zipIdx_cons, List.foldl_cons, List.length_cons]
+    have h1 := applyStep_rel m (t, i)
+    have h2 := foldl_applyStep_rel rest (applyStep m (t, i)) (i+1)
+    have hc : (applyStep m (t, i)).w.cfg = m.w.cfg := foldl_applyStep_cfg [(t, i)] m
+    rw [hc] at h2
+    dsimp only at h1
+    by_cases hlt : i < m.w.cfg.historyCap
+    · have e2 : max i (min (i + (rest.length + 1)) m.w.cfg.historyCap) =
+          max (i + 1) (min (i + 1 + rest.length) m.w.cfg.historyCap) := by omega
+      rw [e2]
+      exact h1.trans h2 (Nat.le_succ _) (Nat.le_max_left _ _)
+    · have e2 : max i (min (i + (rest.length + 1)) m.w.cfg.historyCap) = i := by omega
+      have e3 : max (i + 1) (min (i + 1 + rest.length) m.w.cfg.historyCap) = i + 1 := by omega
+      rw [e2]
+      rw [e3] at h2
+      -- beyond the capacity: neither this step nor the rest pins anything
+      have h1' : ApplyRel i i m.w (applyStep m (t, i)).w := by
+        unfold applyStep
+        rw [if_neg hlt]
+        exact applyRequestNoPin_rel m t i
+      have h2' : ApplyRel i i (applyStep m (t, i)).w ((rest.zipIdx (i+1)).foldl applyStep (applyStep m (t, i))).w := by
+        refine ⟨h2.cfg, h2.requests, h2.previous, h2.pending, h2.current, h2.cancelled, h2.trace, h2.targetsLen, ?_,
+          h2.err⟩
+        intro s
+        rcases h2.targets s with h | ⟨j, hj1, hj2, _⟩
+        · exact .inl h
+        · omega
+      exact h1'.trans h2' (Nat.le_refl _) (Nat.le_refl _)
+
+theorem applyRequests_rel (m : Mach U) (ts : List Transition) :
+    ApplyRel 0 (min ts.length m.w.cfg.historyCap) m.w.freshControl (m.applyRequests ts).1.w := by
+  have h := foldl_applyStep_rel ts ({ m with w := m.w.freshControl } : Mach U) 0
+  rw [Nat.zero_add, Nat.zero_max] at h
+  exact h
+
+/-- While the indices stay below `historyCap` the loop of `applyRequests` is the plain indexed one. -/
+theorem foldl_applyStep_eq_of_fits : (l : List (Transition × Nat)) → (m : Mach U) →
+    (∀ x ∈ l, x.2 < m.w.cfg.historyCap) →
+    l.foldl applyStep m = l.foldl (fun m (x : Transition × Nat) => m.applyRequest x.1 x.2) m
+  | [], _, _ => rfl
+  | x :: rest, m, h => by
+    simp only [List.foldl_cons]
+    have e : applyStep m x = m.applyRequest x.1 x.2 := by
+      unfold applyStep; rw [if_pos (h x List.mem_cons_self)]
+    rw [e]
+    exact foldl_applyStep_eq_of_fits rest _ (fun y hy => by
+      rw [(applyRequest_rel m x.1 x.2).cfg]; exact h y (List.mem_cons_of_mem _ hy))
+
+/-- **A history that fits `previousTransitions` is replayed as before the fix 6770c20**: every entry is applied with
+its index. -/
+theorem applyRequests_eq_of_fits (m : Mach U) (ts : List Transition) (hfit : ts.length ≤ m.w.cfg.historyCap) :
+    m.applyRequests ts =
+      (ts.zipIdx.foldl (fun m (x : Transition × Nat) => m.applyRequest x.1 x.2) ({ m with w := m.w.freshControl } : Mach U),
+       (ts.zipIdx.foldl (fun m (x : Transition × Nat) => m.applyRequest x.1 x.2)
+          ({ m with w := m.w.freshControl } : Mach U)).root.marksDiffer m.root) := by
+  rw [applyRequests_eq, foldl_applyStep_eq_of_fits]
+  intro x hx
+  have := List.snd_lt_of_mem_zipIdx hx
+  show x.2 < m.w.cfg.historyCap
+  omega
+
 /-! ### the guard phase -/
 
 end Mach
@@ -284,6 +422,37 @@ theorem applyRequest_clearMarks (m : Mach U) (t : Transition) (i : Nat) (hk : t.
     · split
       · rfl
       · exact (Node.fwdActive_clearMarks _ _ _).trans (Node.mark_clearMarks _ _)
+
+theorem applyRequestNoPin_frozen (m : Mach U) (t : Transition) :
+    (m.applyRequestNoPin t).root.frozen = m.root.frozen := by
+  unfold applyRequestNoPin
+  dsimp only
+  split
+  · split
+    · exact Node.frozen_of_noResumable (Node.schedule_noRes _ _)
+    · rfl
+  · split
+    · exact Node.frozen_of_clearMarks (Node.request_clearMarks _ _ _)
+    · split
+      · rfl
+      · exact Node.frozen_of_clearMarks ((Node.fwdActive_clearMarks _ _ _).trans (Node.mark_clearMarks _ _))
+
+theorem applyRequestNoPin_clearMarks (m : Mach U) (t : Transition) (hk : t.kind ≠ .schedule) :
+    (m.applyRequestNoPin t).root.clearMarks = m.root.clearMarks := by
+  unfold applyRequestNoPin
+  dsimp only
+  split
+  · next h => exact absurd h hk
+  · split
+    · exact Node.request_clearMarks _ _ _
+    · split
+      · rfl
+      · exact (Node.fwdActive_clearMarks _ _ _).trans (Node.mark_clearMarks _ _)
+
+theorem applyRequests_frozen (m : Mach U) (ts : List Transition) : (m.applyRequests ts).1.root.frozen = m.root.frozen :=
+  applyRequests_inv (P := fun m' => m'.root.frozen = m.root.frozen)
+    (fun m' t i h => (applyRequest_frozen m' t i).trans h)
+    (fun m' t h => (applyRequestNoPin_frozen m' t).trans h) m ts rfl
 
 theorem applyAll_frozen : (ts : List Transition) → (m : Mach U) → (i : Nat) →
     (m.applyAll ts i).root.frozen = m.root.frozen
